@@ -9,7 +9,10 @@ primitive calls of the Coq model (StFS.call):
     ("open", path, mode)  ("write", path)  ("read", path)  ("close", path)
 
 All writes (resp. reads) on one handle form ONE event, numbered at the first
-underlying call.  With ``fault=(k, errno)`` event k raises OSError(errno)
+underlying call; ``fault=(k, errno, sub)`` makes the sub-th underlying write
+(0-based) of write event k fail instead of the first one, and
+``record_writes=True`` keeps (path, bytes) of every underlying write in
+``ffs.writes``.  With ``fault=(k, errno)`` event k raises OSError(errno)
 instead of happening; with ``cut=k`` event k raises SimCrash (a BaseException,
 so no ``except OSError``/``except Exception`` swallows it) and every later
 primitive is inert.
@@ -54,7 +57,14 @@ class _Proxy:
             return len(data)              # after the simulated crash nothing reaches the file
         if not self._wrote:
             self.__dict__["_wrote"] = True
+            self.__dict__["_wev"] = len(self._ffs.events)
+            self.__dict__["_wcount"] = 0
             self._ffs.event(("write", self._path))
+        else:
+            self.__dict__["_wcount"] = self._wcount + 1
+            self._ffs.subwrite(self._wev, self._wcount, self._path)
+        if self._ffs.writes is not None:
+            self._ffs.writes.append((self._path, bytes(data)))
         return self._real.write(data)
 
     def _note_read(self):
@@ -87,9 +97,10 @@ class _Proxy:
 
 
 class FaultFS:
-    def __init__(self, root, fault=None, cut=None):
+    def __init__(self, root, fault=None, cut=None, record_writes=False):
         self.root = os.path.realpath(root)
         self.fault = fault
+        self.writes = [] if record_writes else None
         self.cut = cut
         self.events = []
         self.dead = False
@@ -113,10 +124,20 @@ class FaultFS:
             self.dead = True
             self.fired = True
             raise SimCrash()
-        if self.fault is not None and k == self.fault[0]:
+        if self.fault is not None and k == self.fault[0] and (len(self.fault) < 3 or self.fault[2] == 0
+                                                              or ev[0] != "write"):
             self.fired = True
             code = getattr(_errno, self.fault[1])
             raise OSError(code, os.strerror(code), ev[1])
+
+    def subwrite(self, wev, count, path):
+        """The count-th (>= 1) underlying write of write event wev."""
+        if self.dead:
+            raise SimCrash()
+        if self.fault is not None and len(self.fault) >= 3 and self.fault[0] == wev and self.fault[2] == count:
+            self.fired = True
+            code = getattr(_errno, self.fault[1])
+            raise OSError(code, os.strerror(code), path)
 
     # -- patches
     def __enter__(self):
